@@ -17,10 +17,16 @@
 (*   AliasCaller       a leaf keeps pointing into the caller's buffer (D9) *)
 (*   WriteTerminator   the terminator is appended in place into the        *)
 (*                     caller's spare capacity (D9)                        *)
+(*   QueryMemo         hidden state written by queries (C15): "none" (the  *)
+(*                     code: a query writes nothing), "sound" (a memo of   *)
+(*                     the last hit, dropped by every Delete of that key), *)
+(*                     "leafPathOnly" (dropped only where Delete unlinks a *)
+(*                     leaf from an inner node - not when the root itself  *)
+(*                     is the leaf)                                        *)
 (***************************************************************************)
 EXTENDS Integers, FiniteSets, Sequences, TLC
 
-CONSTANTS Keys, Bufs, KeyLen, MaxOps, BufferAppendOnly, AliasCaller, WriteTerminator
+CONSTANTS Keys, Bufs, KeyLen, MaxOps, BufferAppendOnly, AliasCaller, WriteTerminator, QueryMemo
 
 VARIABLES
   stored,    \* set of keys in the tree
@@ -29,16 +35,17 @@ VARIABLES
   scratch,   \* length of the transformation buffer
   bufkey,    \* bufkey[b]: the key whose bytes the caller last put into buffer b ("none": garbage)
   spare,     \* spare[b]: the byte after the key in b is still the caller's
-  ops        \* operations performed (bounds the model)
+  ops,       \* operations performed (bounds the model)
+  memo       \* the key a query remembered (hidden from the structure), or "none"
 
-vars == <<stored, owned, alias, scratch, bufkey, spare, ops>>
+vars == <<stored, owned, alias, scratch, bufkey, spare, ops, memo>>
 
 None == "none"
 
 Init ==
   /\ stored = {} /\ owned = [k \in Keys |-> 0] /\ alias = [k \in Keys |-> None]
   /\ scratch = 0 /\ bufkey = [b \in Bufs |-> None] /\ spare = [b \in Bufs |-> TRUE]
-  /\ ops = 0
+  /\ ops = 0 /\ memo = None
 
 Transform == scratch' = IF BufferAppendOnly THEN scratch + KeyLen ELSE 0
 
@@ -49,7 +56,7 @@ Touch(b) == spare' = [spare EXCEPT ![b] = IF WriteTerminator THEN FALSE ELSE @]
 Insert(k, b) ==
   /\ ops < MaxOps /\ ops' = ops + 1
   /\ Pass(b, k) /\ Touch(b) /\ Transform
-  /\ stored' = stored \cup {k}
+  /\ stored' = stored \cup {k} /\ UNCHANGED memo
   /\ IF k \in stored THEN UNCHANGED <<owned, alias>>
      ELSE /\ owned' = [owned EXCEPT ![k] = IF AliasCaller THEN 0 ELSE KeyLen]
           /\ alias' = [alias EXCEPT ![k] = IF AliasCaller THEN b ELSE None]
@@ -58,12 +65,14 @@ Delete(k, b) ==
   /\ ops < MaxOps /\ ops' = ops + 1
   /\ Pass(b, k) /\ Touch(b) /\ Transform
   /\ stored' = stored \ {k}
+  /\ memo' = IF memo = k /\ ~(QueryMemo = "leafPathOnly" /\ stored = {k}) THEN None ELSE memo
   /\ owned' = [owned EXCEPT ![k] = 0]
   /\ alias' = [alias EXCEPT ![k] = None]
 
 Query(k, b) ==
   /\ ops < MaxOps /\ ops' = ops + 1
   /\ Pass(b, k) /\ Touch(b) /\ Transform
+  /\ memo' = IF QueryMemo # "none" /\ k \in stored THEN k ELSE memo
   /\ UNCHANGED <<stored, owned, alias>>
 
 (* environment *)
@@ -71,7 +80,7 @@ Scribble(b) ==
   /\ bufkey[b] # None
   /\ bufkey' = [bufkey EXCEPT ![b] = None]
   /\ spare' = [spare EXCEPT ![b] = TRUE]
-  /\ UNCHANGED <<stored, owned, alias, scratch, ops>>
+  /\ UNCHANGED <<stored, owned, alias, scratch, ops, memo>>
 GC == UNCHANGED vars     \* everything the tree needs is reachable through typed pointers: nothing changes
 
 Next ==
@@ -89,6 +98,9 @@ Readable(k) == k \in stored /\ (alias[k] = None \/ bufkey[alias[k]] = k)
 CallerUntouched == \A b \in Bufs : spare[b]
 (* C13b: stored keys belong to the tree *)
 KeysOwned == \A k \in stored : Readable(k)
+(* C15: what a query answers depends on the content alone - never on which queries were made before *)
+Answer(k) == IF QueryMemo # "none" /\ memo = k THEN TRUE ELSE k \in stored
+QueriesTransparent == \A k \in Keys : Answer(k) = (k \in stored)
 (* C17: retained memory is bounded by the content, not by the number of operations *)
 Retained == scratch + KeyLen * Cardinality({k \in Keys : owned[k] > 0})
 BoundedRetention == Retained <= KeyLen * (Cardinality(stored) + 1)
